@@ -648,6 +648,7 @@ fn hdr_results(fam: Fam, b: &[u8]) -> (String, String, bool) {
 pub fn c06_input(c: &mut Ctx, fam: Fam, b: &[u8], class: &str) {
     c.eval();
     let f = fam.n();
+    alloc::set_current(b, f, 0);
     let blk = match guard(|| dec_block(fam, b)) {
         Ok(v) => v,
         Err(p) => {
@@ -840,6 +841,7 @@ fn c11_accepted(c: &mut Ctx, fam: Fam, b: &[u8], fe: &str, p: &Pkt, consumed: us
 /// Feed `b` to all three front-ends; call `on_pkt(front_end, packet, consumed)` for every acceptance.
 pub fn accepted_by(c: &mut Ctx, prop: &str, fam: Fam, b: &[u8], on_pkt: &mut dyn FnMut(&mut Ctx, &str, &Pkt, usize)) {
     let f = fam.n();
+    alloc::set_current(b, f, 0);
     // async first: it tells how many bytes the (shared) blocking/async path consumes
     let mut consumed = 0;
     match guard(|| dec_async_bytes(fam, b)) {
